@@ -140,6 +140,14 @@ func modelResolve(w *World, from *SFile, ref string) (tag, def string, ok bool) 
 				okDef = true
 			}
 		}
+		if !okDef && target.Doc != nil {
+			// a definition without marker (not listed in Defs): look into the document itself
+			if dv, ok := target.Doc.Get(defsKey(target.Doc)); ok {
+				if do, ok := dv.(Obj); ok {
+					_, okDef = do.Get(def)
+				}
+			}
+		}
 		if !okDef {
 			return target.Tag, def, false
 		}
@@ -430,6 +438,8 @@ func (p c10) Eval(c *Case, outs []*Out) []Discrepancy {
 		}
 		// A: attribution
 		typeOf := map[string]string{} // model target -> go type used by referrers
+		type twinRef struct{ tag, prop, typ string }
+		twinType := map[string]twinRef{}
 		recCombo := meta.RecCombo
 		for _, r := range meta.Refs {
 			fromMk := "mk_" + r.FromTag
@@ -449,6 +459,15 @@ func (p c10) Eval(c *Case, outs []*Out) []Discrepancy {
 			pkg := h.pkg
 			if j := strings.LastIndex(base, "."); j >= 0 {
 				pkg, base = base[:j], base[j+1:]
+			}
+			if strings.HasPrefix(r.Spelling, "samename:") {
+				// two documents define "Sub" slightly differently: the two references must not end up at one Go type
+				if prev, ok := twinType[r.Spelling]; ok && prev.tag != r.ModelTag && prev.typ == pkg+"."+base {
+					add("S", "distinct-definitions-share-one-type:"+r.Spelling, fmt.Sprintf("%s#/$defs/Sub and %s#/$defs/Sub differ (%s) but property %q and property %q both have type %s: one definition lost its type, its referrers decode with the other's fields, defaults and checks",
+						prev.tag, r.ModelTag, strings.TrimPrefix(r.Spelling, "samename:"), prev.prop, r.Prop, ft))
+				}
+				twinType[r.Spelling] = twinRef{r.ModelTag, r.Prop, pkg + "." + base}
+				continue
 			}
 			toMk := "mk_" + r.ModelTag
 			if r.ModelDef != "" {
